@@ -480,6 +480,8 @@ class BlackbirdProgram:
         # top level metadata
         var_count = 0
         array_insert = 3
+        # a tdm program declares its own variables; generated array names must not clash with them
+        declared = set(self._var) if self.programtype["name"] == "tdm" else set()
 
         script = ["name {}".format(self.name), "version {}".format(self.version)]
 
@@ -548,7 +550,9 @@ class BlackbirdProgram:
                     # for each operation argument, format it
                     # correctly depending on its type
                     if isinstance(v, np.ndarray):
-                        # create an array variable
+                        # create an array variable, under a name that no declared variable has
+                        while "A{}".format(var_count) in declared:
+                            var_count += 1
                         var_name = "A{}".format(var_count)
                         args.append(var_name)
                         var_count += 1
@@ -586,7 +590,9 @@ class BlackbirdProgram:
                     # for each operation argument, format it
                     # correctly depending on its type
                     if isinstance(v, np.ndarray):
-                        # create an array variable
+                        # create an array variable, under a name that no declared variable has
+                        while "A{}".format(var_count) in declared:
+                            var_count += 1
                         var_name = "A{}".format(var_count)
                         kwargs.append("{}={}".format(k, var_name))
                         var_count += 1
